@@ -87,7 +87,7 @@ def run_shard(rec, tier, seed, shard, nshards):
             h.add_score(int(p), (0.0 if p == best else 1.0) if scores is None else float(scores[p]))
         return h
 
-    def step(screen, policy, unobserved, batch, best=None, scores=None):
+    def step(screen, policy, unobserved, batch, best=None, scores=None, as_array=False):
         """returns (allowed ids as recorded at the policy, selected id or None)"""
         recd = {}
         orig = policy.filter_eligible_plates
@@ -101,7 +101,10 @@ def run_shard(rec, tier, seed, shard, nshards):
 
         policy.filter_eligible_plates = wrapped
         try:
-            sel = select_next_plate(holder_for(unobserved, best, scores), screen, policy, batch_plate_ids=list(batch), rng=np.random.default_rng(0))
+            bids = list(batch)
+            if as_array and len(bids) <= 1:
+                bids = np.array(bids, dtype=int)  # e.g. np.array([0]): a falsy but non-empty batch
+            sel = select_next_plate(holder_for(unobserved, best, scores), screen, policy, batch_plate_ids=bids, rng=np.random.default_rng(0))
         finally:
             del policy.filter_eligible_plates
         return recd, (None if sel is None else int(sel.plate_id))
@@ -203,7 +206,10 @@ def run_shard(rec, tier, seed, shard, nshards):
             scores = {p: float(rng.choice([0.0, 1.0, 2.0, float("-inf"), rng.normal()])) for p in unobserved}
             w = {"shape": list(shape), "k": k, "observed": list(observed), "batch": list(batch), "history": trace[-12:]}
             try:
-                recd, sel = step(screen, policy, unobserved, batch, scores=scores)
+                arr = bool(rng.random() < 0.5)
+                recd, sel = step(screen, policy, unobserved, batch, scores=scores, as_array=arr)
+                if arr and len(batch) <= 1:
+                    rec.count("batches_passed_as_numpy_array")
             except Exception as e:
                 rec.violation("C16/policy/raises", "select_next_plate raised %r" % (e,), w)
                 break
